@@ -11,9 +11,11 @@ import (
 	"strings"
 	"sync"
 
+	"github.com/circlefin/noble-cctp/x/cctp/keeper"
 	ct "github.com/circlefin/noble-cctp/x/cctp/types"
 
 	"verif/harness/chain"
+	"verif/harness/ref"
 )
 
 // runTranscript executes history hid (a pure function of (seed, hid)) on a fresh instance and
@@ -45,6 +47,9 @@ func runTranscriptR(seed int64, hid, nTx int, yield func(), restartEvery int) (d
 		h := sha256.New()
 		fmt.Fprintf(h, "%d|%s|", rep.Res.Code, rep.Res.Codespace)
 		h.Write(rep.Res.Data)
+		if !rep.Res.IsPanic() {
+			h.Write([]byte(rep.Res.Log)) // the error text returned to the submitter (panic logs carry goroutine ids: excluded)
+		}
 		for _, ev := range rep.Res.Events {
 			h.Write([]byte(ev.Type))
 			for _, a := range ev.Attributes {
@@ -109,6 +114,8 @@ func runC18(rc *RunCtx) {
 		d, v, inc := runTranscriptR(rc.Seed, hb, nTx, nil, every)
 		rec(hb, fmt.Sprintf("restart-every-%d", every), d, v, inc)
 	}
+	// (b'') the exported verifier and decoders called repeatedly and concurrently with the same arguments
+	c18RepeatCalls(rc)
 	// (c) concurrently with other instances on other goroutines
 	var wg sync.WaitGroup
 	type out struct {
@@ -290,4 +297,60 @@ func init() {
 		},
 		Assumptions: []string{"wall-clock dependence is visible only if it manifests within the seconds between replays", "SDK-internal races (BaseApp.Query concurrent with Commit, shared interface registries) are avoided by the harness, not attributed to the module"},
 	})
+}
+
+// c18RepeatCalls: the exported verifier, given the same (message, attestation, attesters, threshold), must return
+// the same result - including the error text - on every call, from any goroutine.
+func c18RepeatCalls(rc *RunCtx) {
+	r := rc.Rand
+	keys := AttesterPool[:5]
+	var attesters []ct.Attester
+	for i, k := range keys {
+		attesters = append(attesters, ct.Attester{Attester: k.Spell(i)})
+	}
+	for c := 0; c < rc.Pick(12, 40); c++ {
+		t := 2 + c%3
+		signers := ref.SortByAddr(keys)[:t]
+		msg := structured(50+c, byte(c))
+		att := ref.HonestAttestation(msg, signers, 0)
+		// several independent faults in one attestation
+		for f := 0; f < 1+c%3; f++ {
+			att = MutateBytes(r, []string{"flip-v", "zero-r", "zero-s", "r-ge-n", "sign-other-bytes", "swap-non-enabled-key"}[(c+f)%6], (c+f)%t, msg, att, signers, AttesterPool[9])
+		}
+		if c%4 == 0 { // two different recovery failures
+			att[64] = 9
+			for i := 65; i < 129 && i < len(att); i++ {
+				att[i] = 0
+			}
+		}
+		results := make([]string, 400)
+		var wg sync.WaitGroup
+		for g := 0; g < 8; g++ {
+			wg.Add(1)
+			go func(g int) {
+				defer wg.Done()
+				for i := g; i < len(results); i += 8 {
+					err := keeper.VerifyAttestationSignatures(msg, append([]byte(nil), att...), attesters, uint32(t))
+					if err == nil {
+						results[i] = "<nil>"
+					} else {
+						results[i] = err.Error()
+					}
+				}
+			}(g)
+		}
+		wg.Wait()
+		rc.Cov.Assert("C18.repeat-call-determinism")
+		rc.Cov.Evaluations += len(results)
+		rc.Cov.Distinct(fmt.Sprintf("repeat|%d|%d", c, t))
+		for _, x := range results[1:] {
+			if x != results[0] {
+				rc.Report(Violation{Props: []string{"C18"}, Monitor: "repeat-call-determinism", Sig: "C18:verifier-result-varies",
+					Detail: fmt.Sprintf("VerifyAttestationSignatures returned different results for identical arguments: %q vs %q", results[0], x),
+					Case:   map[string]string{"message": hex.EncodeToString(msg), "attestation": hex.EncodeToString(att), "threshold": fmt.Sprint(t)}})
+				break
+			}
+		}
+	}
+	rc.Cov.Cell("C18_modes", "repeat-calls")
 }
